@@ -217,7 +217,18 @@ def main_c12(tier, seed, rng, quick, t0, replay_path):
         mc = dict(distinct=1, generated=1, completed=True, cmd='')
         faults = [[]]
     else:
-        charts = yaml_charts(rng, 4, 12 if quick else (8 if os.environ.get('C12_FAULTS') == '3' else 40))
+        charts = yaml_charts(rng, 4, 9 if quick else (8 if os.environ.get('C12_FAULTS') == '3' else 32))
+        big5 = [c for c in gc.family_f1(5) if c['n'] == 5 and any(
+            c['parent'][a - 1] != 0 and len(gc.children(c, a)) >= 2 and min(gc.children(c, c['parent'][a - 1])) < a
+            for a in range(2, 6))]     # a nested state with two children that is declared after a sibling
+        rng.shuffle(big5)
+        for c in big5[:3 if quick else 10]:
+            c = json.loads(json.dumps(c))
+            c['trans'] = rng.sample(c['trans'], min(2, len(c['trans'])))
+            for i, t in enumerate(c['trans']):
+                t['ev'] = i % 2
+                t['prio'] = rng.choice([0, 1, -1, 7])
+            charts.append(c)
         d = tlc.workdir('C12_yaml')
         with open(os.path.join(d, 'ChartsData.tla'), 'w') as f:
             f.write(gc.tla_charts_module('ChartsData', charts))
